@@ -22,6 +22,10 @@ CORPUS = [
     "            print('caught')\nf()\nx = 1\nprint('after', x)\n",
     "for i in range(2):\n    try:\n        1 // 0\n    except ZeroDivisionError as err:\n        print('caught', i)\n",
     "import contextlib\nfor i in range(2):\n    with contextlib.suppress(KeyError):\n        raise KeyError(i)\n",
+    # exceptions that are not `Exception`s, raised in nested functions of the script: every user frame stays in the traceback
+    "def inner():\n    raise KeyboardInterrupt\ndef outer():\n    x = 1\n    inner()\nprint('before')\nouter()\n",
+    "import sys\ndef inner(n):\n    if n == 0:\n        sys.exit(3)\n    inner(n - 1)\ndef outer():\n    inner(2)\nouter()\n",
+    "def gen():\n    yield 1\n    raise GeneratorExit\ndef outer():\n    for v in gen():\n        print(v)\nouter()\n",
 ]
 CALLABLE_TMPL = 'def main():\n{body}\n    return {ret}\n'
 
@@ -161,6 +165,12 @@ def compare(sp: dict, r: dict) -> list[str]:
                     m = re.findall(r'File "([^"]+)", line (\d+)', t['fmt_exc'].split('Traceback (most recent call last):')[-1])
                     if ref_frames and m and int(m[-1][1]) != ref_frames[-1][1]:
                         msgs.append(f'innermost traceback line: untraced {ref_frames[-1][1]}, traced {m[-1][1]}')
+                    # every user frame of the untraced traceback is there, in order (the script's own frames: same file name in both runs)
+                    user = lambda fn: fn == '<string>' or fn.endswith('.py') and '/nlv-inproc-' in fn or fn == '<callable>'
+                    a = [ln for f, ln in ref_frames if user(f)]
+                    b = [int(ln) for f, ln in m if user(f)]
+                    if a != b:
+                        msgs.append(f'user frames of the traceback (line numbers): untraced {a}, traced {b}')
             else:
                 if any('/nextline/' in f for f in files):
                     msgs.append(f'SyntaxError traceback shows Nextline frames: {files[:3]}')
